@@ -56,6 +56,19 @@ func leafKinds() []LeafCfg {
 	return ks
 }
 
+// nodes whose embedded BaseNode did NOT go through NewBaseNode: the zero value (`&flyt.BaseNode{}`, or a BaseNode embedded
+// by value). Its retry budget is 0 (no exec attempt at all, see DESIGN 7), its fallback the pass-through one; the budget of
+// such a kind is fixed (Impl "zero*" makes the generators leave it alone).
+func zeroBaseKinds() []LeafCfg {
+	d := "direct"
+	return []LeafCfg{
+		{Retryable: true, Fb: "pass", PrepS: d, ExecS: d, PostS: d, Impl: "zeroptr"},
+		{Retryable: true, Fb: "pass", PrepS: d, ExecS: d, PostS: "absent", Impl: "zeroptr"},
+		{Retryable: true, Fb: "pass", PrepS: d, ExecS: d, PostS: d, Impl: "zeroval"},
+		{Retryable: true, Fb: "pass", PrepS: d, ExecS: d, PostS: "absent", Impl: "zeroval"},
+	}
+}
+
 func funcStyleKinds() []LeafCfg {
 	var ks []LeafCfg
 	for _, p := range []string{"res", "any"} {
@@ -81,8 +94,8 @@ type tokGen struct {
 
 func (t *tokGen) tok() string {
 	t.next++
-	if t.next >= 1001 && t.next <= 1006 { // reserved for the typed nils and the error-typed payloads
-		t.next = 1007
+	if t.next >= 1001 && t.next <= 1008 { // reserved for the typed nils, the error-typed and the Action-typed payloads
+		t.next = 1009
 	}
 	return "t" + strconv.Itoa(t.next)
 }
@@ -94,7 +107,7 @@ func (t *tokGen) val() string {
 		return "t0"
 	}
 	if t.r.chance(6) { // a typed nil (nil pointer / nil map / nil chan): must travel as it is, not as untyped nil
-		return "t" + strconv.Itoa(1001+t.r.intn(6)) // … or a value whose type implements error (1005, 1006)
+		return "t" + strconv.Itoa(1001+t.r.intn(8)) // … or a value whose type implements error (1005, 1006), or an Action-typed value (1007, 1008)
 	}
 	if t.r.chance(7) { // a flyt.Result used as an ordinary payload value (sometimes one holding another Result)
 		if t.r.chance(25) {
